@@ -47,33 +47,46 @@ _SCRIPT = textwrap.dedent('''
     from ixai.imputer import MarginalImputer, TreeImputer
     if cfg.get('seed_after_import'):
         random.seed(cfg['seed']); np.random.seed(cfg['seed'])
-    names = ['a', 'b', 'c']
-    def model(x):
-        if not isinstance(x, dict):
-            return [model(z) for z in x]
-        return {'output': x['a'] * 0.3 + x['b'] * x['c']}
-    def loss(y, p):
-        return (y - p['output']) ** 2
-    if cfg['storage'] == 'tree':
-        st = TreeStorage(cat_feature_names=[], num_feature_names=names, grace_period=5, leaf_reservoir_length=3)
-        imp = TreeImputer(model, st, use_storage=cfg.get('use_storage', False))
-    else:
-        st = {'uniform': lambda: UniformReservoirStorage(size=5), 'geometric': lambda: GeometricReservoirStorage(size=5),
-              'batch': lambda: BatchStorage()}[cfg['storage']]()
-        imp = MarginalImputer(model, cfg.get('strategy', 'joint'), st)
-    ex = {'sage': lambda: IncrementalSage(model, loss, names, storage=st, imputer=imp, smoothing_alpha=0.3),
-          'pfi': lambda: IncrementalPFI(model, loss, names, storage=st, imputer=imp, smoothing_alpha=0.3)}[cfg['explainer']]()
-    rng = random.Random(12345)
-    out = None
-    for t in range(cfg['steps']):
-        x = {k: rng.random() for k in names}
-        out = ex.explain_one(x, rng.random())
-    content = None
-    if cfg['storage'] != 'tree':
-        content = [sorted(r.items()) for r in st.get_data()[0]]
-    else:
-        content = {f: sorted((k, [sorted(p.items()) for p in v.get_data()[0]]) for k, v in d.items()) for f, d in st.data_reservoirs.items()}
-    print(json.dumps({'values': {k: float(v).hex() for k, v in out.items()}, 'storage': content}, sort_keys=True))
+    def scenario(steps=None):
+        names = ['a', 'b', 'c']
+        def model(x):
+            if not isinstance(x, dict):
+                return [model(z) for z in x]
+            return {'output': x['a'] * 0.3 + x['b'] * x['c']}
+        def loss(y, p):
+            return (y - p['output']) ** 2
+        if cfg['storage'] == 'tree':
+            st = TreeStorage(cat_feature_names=[], num_feature_names=names, grace_period=5, leaf_reservoir_length=3)
+            imp = TreeImputer(model, st, use_storage=cfg.get('use_storage', False))
+        else:
+            st = {'uniform': lambda: UniformReservoirStorage(size=5), 'geometric': lambda: GeometricReservoirStorage(size=5),
+                  'batch': lambda: BatchStorage()}[cfg['storage']]()
+            imp = MarginalImputer(model, cfg.get('strategy', 'joint'), st)
+        ex = {'sage': lambda: IncrementalSage(model, loss, names, storage=st, imputer=imp, smoothing_alpha=0.3),
+              'pfi': lambda: IncrementalPFI(model, loss, names, storage=st, imputer=imp, smoothing_alpha=0.3)}[cfg['explainer']]()
+        rng = random.Random(12345)
+        out = None
+        for t in range(steps or cfg['steps']):
+            x = {k: rng.random() for k in names}
+            out = ex.explain_one(x, rng.random())
+        content = None
+        if cfg['storage'] != 'tree':
+            content = [sorted(r.items()) for r in st.get_data()[0]]
+        else:
+            content = {f: sorted((k, [sorted(p.items()) for p in v.get_data()[0]]) for k, v in d.items()) for f, d in st.data_reservoirs.items()}
+        return json.dumps({'values': {k: float(v).hex() for k, v in out.items()}, 'storage': content}, sort_keys=True)
+
+    first = scenario()
+    outs = [first]
+    if cfg.get('in_process'):
+        # the same scenario again in the SAME interpreter after re-seeding the global generators, once directly and once after
+        # other library objects were used (a shorter unrelated run): the results may depend on nothing but the global seeds
+        random.seed(cfg['seed']); np.random.seed(cfg['seed'])
+        outs.append(scenario())
+        scenario(steps=7)
+        random.seed(cfg['seed']); np.random.seed(cfg['seed'])
+        outs.append(scenario())
+    print(json.dumps(outs))
 ''')
 
 
@@ -97,8 +110,12 @@ def _configs(tier):
     # the generators seeded only AFTER the library was imported (import-time code must not consume or bypass them)
     cfgs.append({'explainer': 'sage', 'storage': 'tree', 'seed': 11, 'steps': 25, 'seed_after_import': True})
     cfgs.append({'explainer': 'pfi', 'storage': 'geometric', 'seed': 11, 'steps': 25, 'seed_after_import': True})
+    # replays inside one interpreter (re-seeded; also after other library objects were used)
+    cfgs.append({'explainer': 'sage', 'storage': 'tree', 'seed': 4, 'steps': 25, 'in_process': True})
+    cfgs.append({'explainer': 'pfi', 'storage': 'tree', 'use_storage': True, 'seed': 4, 'steps': 30, 'in_process': True})
+    cfgs.append({'explainer': 'sage', 'storage': 'geometric', 'seed': 4, 'steps': 25, 'in_process': True})
     if tier == 'quick':
-        cfgs = [cfgs[0], cfgs[2], cfgs[5], cfgs[7], cfgs[8]]
+        cfgs = [cfgs[0], cfgs[2], cfgs[5], cfgs[7], cfgs[8], cfgs[10], cfgs[11]]
     return cfgs
 
 
@@ -113,11 +130,14 @@ def BOUNDED(tier, seed):
         a, b = outs[2 * ci], outs[2 * ci + 1]
         if a.startswith('ERROR') or b.startswith('ERROR'):
             fails.append({'key': 'run_error', 'summary': f'replay of {c} failed: {a[:200]}'})
-        elif a != b:
-            fails.append({'key': 'not_reproducible_' + c['storage'], 'summary': f'two replays of {c} with identical global seeds differ',
+        elif a != b or len(set(json.loads(a))) != 1:
+            if a == b:
+                a, b = json.loads(a)[0], [x for x in json.loads(a) if x != json.loads(a)[0]][0]
+            fails.append({'key': 'not_reproducible_' + c['storage'], 'summary': f'replays of {c} with identical global seeds differ (fresh interpreters and / or re-seeded replays in one interpreter)',
                           'config': c, 'observed': {'first': a[:300], 'second': b[:300]}})
     return [{'name': 'two_run_bitwise', 'evaluations': len(jobs), 'distinct_nontrivial': max(2, len(cfgs)),
              'rule': 'each configuration (explainer x storage x imputer) replayed twice in fresh interpreters (PYTHONHASHSEED=0) with random '
+                     'and numpy seeded identically - some also re-seeded and replayed inside one interpreter, directly and after other library objects were used - '
                      'and numpy seeded identically; importance values compared by float.hex(), storage contents compared exactly',
              'bound': f'{len(cfgs)} configurations, 25-40 observations', 'failures': fails}]
 
